@@ -80,6 +80,7 @@ namespace fcwatch {
 }
 
 struct IQueue {
+    virtual void start_naming() {}
     virtual ~IQueue() {}
     virtual bool enq( long v ) = 0;
     virtual bool deq( long& v ) = 0;
@@ -175,15 +176,32 @@ struct IntrusiveQ : IQueue {
     std::vector<std::unique_ptr<item>> items;       // every node ever enqueued; a node is used for one enqueue only
     IntrusiveQ() : q( new queue_t ) {}
     ~IntrusiveQ() { shutdown( nullptr ); }
+    size_t named = 0;               // nodes are named n1, n2, … in the order in which enqueues are INVOKED after the warm-up:
+                                    // the order in which the Lean machine Algo/MSQueue allocates node ids (tie A); the dummy is n0
     bool enq( long v ) override
     {
+        set_quiet( true );          // constructing the client's node is not part of enqueue()
         item* p = new item;
+        set_quiet( false );
         p->v = v;
         items.emplace_back( p );
-        char nm[32];
-        std::snprintf( nm, sizeof nm, "n%ld", v );
-        reg_name( p, sizeof( item ), nm );
+        if ( name_nodes ) {
+            char nm[32];
+            std::snprintf( nm, sizeof nm, "n%zu", ++named );
+            reg_name( &p->m_pNext, sizeof( p->m_pNext ), nm );
+        }
         return q->enqueue( *p );
+    }
+    bool name_nodes = false;
+    void start_naming() override
+    {
+        // called after the warm-up: whatever node is the dummy now is n0; head and tail get their names
+        name_nodes = true;
+        named = 0;
+        reg_name( &q->m_pHead, sizeof( q->m_pHead ), "head" );
+        reg_name( &q->m_pTail, sizeof( q->m_pTail ), "tail" );
+        auto d = q->m_pHead.load();
+        reg_name( &d->m_pNext, sizeof( d->m_pNext ), "n0" );
     }
     bool deq( long& v ) override
     {
@@ -309,6 +327,7 @@ struct Fixture {
                 if ( !s->deq( x ) || x != -long( i ) - 1 ) { failed = true; failure = "warm-up enq/deq mismatch"; }
             }
         }
+        s->start_naming();
     }
     std::string spec() const { return "fifo"; }
 
